@@ -102,6 +102,15 @@ CHECKS["C01"] = (
     "DESIGN.md section 6, C01",
 )
 
+CHECKS["C04"] = (
+    "Hypothesis-generated defective baselines x flag/storage/argument combinations against a decision-table oracle",
+    "Generated-input search over baselines carrying combinations of sufficiency defects (daily legacy/current, billing, hourly) "
+    "crossed with both override flags, storage, reporting argument kinds (own, baseline object, foreign type, other timezone) and "
+    "fitted/unfitted models; every outcome (returned model/frame or exception type) is compared with the fail-closed decision table.",
+    "Trusted: the decision table in vf/props/c04.py; the data object's own verdict feeds it (C10 judges the verdict).",
+    "DESIGN.md section 6, C04",
+)
+
 PENDING_REASON = "check not built yet in this session (work in progress; property-based testing applies and is planned, see DESIGN.md section 6)"
 
 
